@@ -97,6 +97,8 @@ def build(u):
     u.use('use std::sync::atomic::Ordering;')
     u.use('use vstd::utf8::*;')
     u.use('use vstd::string::StringSliceAdditionalSpecFns;')
+    u.use('use vstd::std_specs::hash::*;')
+    u.prelude('arc_str.rs')
     u.prelude('shim_chars.rs')
     u.prelude('shim_sourceview.rs')
     # the struct, verbatim except R-stub-type (the two cells) / R-vis / R-attr
@@ -119,6 +121,15 @@ def build(u):
     def prep_new(f):
         u.count('R-stub-type', f.rewrite(r'\bAtomicUsize::new\(', 'SeqAtomicUsize::new(', expect=1) + f.rewrite(r'\bMutex::new\(', 'SeqMutex::new(', expect=1))
     emit_method(u, S, r'SourceView\b', 'new', 'sourceview::SourceView::new', prep=prep_new)
+    def prep_from_string(f):
+        prep_new(f)
+        u.count('R-let-tail', f.let_tail())
+    emit_method(u, S, r'SourceView\b', 'from_string', 'sourceview::SourceView::from_string', prep=prep_from_string)
+    # R-trait-inherent: Clone::clone of SourceView as an inherent method
+    def prep_clone(f):
+        prep_from_string(f)
+        u.count('R-trait-inherent')
+    guarded(u, 'sourceview::SourceView::clone', lambda: u.get_fn(S, 'clone', impl=r'Clone for SourceView\b'), prep_clone, wrap=lambda: ('impl SourceView {', '}'))
     emit_method(u, S, r'SourceView\b', 'get_line', 'sourceview::SourceView::get_line', prep=lambda f: prep_get_line(f, u))
     emit_method(u, S, r'SourceView\b', 'line_count', 'sourceview::SourceView::line_count', prep=lambda f: seq_sig(f, u, ret_lifetime=False))
     emit_method(u, S, r'SourceView\b', 'lines', 'sourceview::SourceView::lines', prep=lambda f: seq_sig(f, u, ret_lifetime=False))
